@@ -47,9 +47,10 @@ pub fn judge_ts_add_days(self_us: i64, days: f64, got: &Result<i64, Error>) -> R
     }
 }
 
-/// OracleDate::add_days: nearest second of the timestamp result (either neighbour on an exact
-/// tie); Ok iff the timestamp result is a valid timestamp and the rounded second is a valid
-/// Oracle-style date.
+/// OracleDate::add_days: nearest second of the exact sum (either neighbour on an exact tie).  An error
+/// is admissible when the un-rounded sum is not a valid timestamp or the rounded second is not a valid
+/// Oracle-style date; a value is admissible whenever it is a valid Oracle-style date nearest to an
+/// admissible sum.
 pub fn judge_od_add_days(self_us: i64, days: f64, got: &Result<i64, Error>) -> Result<&'static str, String> {
     let (band, exact) = match day_offset_band(days) {
         Some(b) => b,
@@ -63,9 +64,11 @@ pub fn judge_od_add_days(self_us: i64, days: f64, got: &Result<i64, Error>) -> R
             if !rg::od_ok(v) {
                 return Err("a whole second between 0001-01-01 00:00:00 and 9999-12-31 23:59:59".into());
             }
-            // exists admissible R with ts = s + R in the timestamp range and |ts - v| <= half a second
-            let lo = (v - half - s).max(rg::TS_MIN - s);
-            let hi = (v + half - s).min(rg::TS_MAX - s);
+            // exists admissible R with |s + R - v| <= half a second (the un-rounded sum itself may lie up to
+            // half a second outside the range: "rounds to the nearest second" does not say that it must be
+            // representable as a timestamp first)
+            let lo = v - half - s;
+            let hi = v + half - s;
             if lo <= hi && band.admits_nearest_le(hi) && band.admits_nearest_ge(lo) {
                 Ok(if exact { "ok_exact_product" } else { "ok_within_band" })
             } else {
